@@ -14,7 +14,7 @@ import ast
 from sa.model import AnalysisError
 from sa.ctx import Ctx, short, stmt_key
 from sa.cfg import NORMAL, describe_path
-from sa.report import Report
+from sa.report import Report, section
 from sa.util import cfg_root, node_has_call, has_fact, exists_in, fact_in, local_assigned_from
 from sa import pat
 
@@ -150,29 +150,29 @@ def run(ctx: Ctx, rep: Report, tier: str):
     from rules.common import refresh_marks_changed
     rep.rule("C14.W7", "a refresh that discovers a new hash or a new path stamps the side changed (unless ignored / already changed): what was learnt from the "
              "provider is acted upon even if the corresponding event never arrives", expect_min=2)
-    refresh_marks_changed(ctx, rep, "C14.W7")
+    section(rep, lambda: refresh_marks_changed(ctx, rep, "C14.W7"))
     from rules.common import refresh_marks_exists
     rep.rule("C14.W8", "a refresh that finds the object marks the side EXISTS on every path, whether or not the content hash changed: a stale tombstone is "
              "corrected by the refreshed truth before sync() acts on it", expect_min=1)
-    refresh_marks_exists(ctx, rep, "C14.W8")
+    section(rep, lambda: refresh_marks_exists(ctx, rep, "C14.W8"))
     from rules.common import refresh_stamp_after_fetch
     rep.rule("C14.W9", "the refresh stamp is stored only after the refresh returned (C10.T8): a failed refresh does not let sync() proceed on the event's stale data", 1)
-    refresh_stamp_after_fetch(ctx, rep, "C14.W9")
+    section(rep, lambda: refresh_stamp_after_fetch(ctx, rep, "C14.W9"))
     from rules.common import walk_dedupe_is_exact, parent_recorded_when_provider_knows_it
     rep.rule("C14.W6b", "a walk event is dropped only when hash and path are exactly equal to the state's (no comparison modulo case / separators)", 1)
-    walk_dedupe_is_exact(ctx, rep, "C14.W6b")
+    section(rep, lambda: walk_dedupe_is_exact(ctx, rep, "C14.W6b"))
     rep.rule("C14.W10", "a late / missing parent-folder event is harmless: when a transfer fails because the parent is unknown at its path, the parent the provider reports "
              "there is recorded in the state unconditionally", 1)
-    parent_recorded_when_provider_knows_it(ctx, rep, "C14.W10")
+    section(rep, lambda: parent_recorded_when_provider_knows_it(ctx, rep, "C14.W10"))
     from rules.common import event_application_writes_through
     rep.rule("C14.W11", "how an event becomes state: SyncState.update looks the object up on the event's side, creates an entry only when none is known, and hands every field "
              "to update_entry, which writes each field the event carries to that side only - guarded by nothing but 'the event carries it' - stores the existence flag on "
              "every path and marks the entry changed", 12)
-    event_application_writes_through(ctx, rep, "C14.W11")
+    section(rep, lambda: event_application_writes_through(ctx, rep, "C14.W11"))
     from rules.common import refresh_writes_through
     rep.rule("C14.W12", "how the provider's answer becomes state: the refresh asks info_oid for the entry's id on that side with the cache bypassed, touches that side only, "
              "and writes type, path, size, mtime (every path) and hash (whenever it differs) of the answer to the state", 8)
-    refresh_writes_through(ctx, rep, "C14.W12")
+    section(rep, lambda: refresh_writes_through(ctx, rep, "C14.W12"))
     from rules.common import pathless_event_takes_known_path
     rep.rule("C14.W13", "an event that carries no path is completed from the state: _fill_event_path copies the path the state knows for the event's id under no further condition", 1)
-    pathless_event_takes_known_path(ctx, rep, "C14.W13")
+    section(rep, lambda: pathless_event_takes_known_path(ctx, rep, "C14.W13"))
